@@ -24,7 +24,7 @@ def get_gme_2qubit(rho:np.ndarray):
     '''
     assert rho.shape==(4,4)
     tmp0 = get_concurrence_2qubit(rho)
-    ret = (1-np.sqrt(1-tmp0*tmp0)) / 2
+    ret = (1-np.sqrt(max(0, 1-tmp0*tmp0))) / 2 #concurrence can be 1+ulp for maximally entangled states
     return ret
 
 
